@@ -46,7 +46,8 @@ class Marker:
 
     def __init__(self, tag):
         self.tag = tag
-        self.sub = types.SimpleNamespace(fn=self)  # for dotted callees: NAME.sub.fn(x)
+        # for dotted callees: NAME.sub.fn(x) and NAME.sub.deep.fn4(x); NAME.sub.fn4 is a wrong turn
+        self.sub = types.SimpleNamespace(fn=self, deep=types.SimpleNamespace(fn4=self), fn4=lambda x: np.full(len(x), 555.0))
 
     def __call__(self, x):
         return np.full(len(x), float(self.tag))
@@ -88,11 +89,11 @@ def run_config(cfg, builtin_name="scale"):
             received.append(v)
             return np.zeros(N_ROWS)
 
-        formula = f"y ~ 0 + fv_rec({name_src})"
+        formula = f"y ~ 0 + fv_rec(v={name_src})" if form == "keyword" else f"y ~ 0 + fv_rec({name_src})"
     else:
         name = builtin_name if builtin else ("abs" if pyb else "probe_fn")
         name_src = name
-        formula = f"y ~ 0 + {name}.sub.fn(x)" if form == "dotted" else f"y ~ 0 + {name}(x)"
+        formula = {"dotted": f"y ~ 0 + {name}.sub.fn(x)", "dotted4": f"y ~ 0 + {name}.sub.deep.fn4(x)"}.get(form, f"y ~ 0 + {name}(x)")
     df = pd.DataFrame({"y": np.arange(N_ROWS, dtype=float), "x": np.arange(N_ROWS, dtype=float) + 1})
     if "data" in defined:
         df[name] = np.full(N_ROWS, float(marker_value("data", 0)))
@@ -138,7 +139,7 @@ def run_config(cfg, builtin_name="scale"):
             LAST_PROBED[0] = name in extra.asked
     except Exception as e:  # pylint: disable=broad-except
         msg = str(e)
-        if role == "callee" and form == "dotted" and isinstance(e, AttributeError) and ("'Scale'" in msg or "'Treatment'" in msg):
+        if role == "callee" and form in ("dotted", "dotted4") and isinstance(e, AttributeError) and ("'Scale'" in msg or "'Treatment'" in msg):
             return "builtin", ""  # the first component resolved to the built-in class, which has no attribute 'sub'
         if role == "callee" and builtin_name == "Treatment" and "unrecognized type" in msg and "Treatment" in msg:
             return "builtin", ""  # the built-in Treatment class was called: its instance is not a column
@@ -209,9 +210,9 @@ def main(tier, seed):
     common.use_repo()
     rep = Report("C11", tier, seed)
     rep.rule = (
-        "Complete: all 3072 configurations of Scopes_MC (2^5 scope subsets (data only for arguments) x 8 decoy subsets (other frames' locals, other frames' globals, "
+        "Complete: all 4608 configurations of Scopes_MC (2^5 scope subsets (data only for arguments) x 8 decoy subsets (other frames' locals, other frames' globals, "
         "a name spelled like a Python built-in) x role x "
-        "name form x env 0..3); each terminal state is replayed with sentinels through four synthetic caller modules. "
+        "name form (argument: plain / back-quoted / value of a keyword argument; callee: plain / a.b.f / a.b.c.f) x env 0..3); each terminal state is replayed with sentinels through four synthetic caller modules. "
         "Non-trivial = configurations in which at least two scopes (or a decoy) define the name."
     )
     rep.assumptions = [
